@@ -202,6 +202,11 @@ def run_parallel(vf, contracts, jobs, first_chunk=24, chunk=100):
 # ---------------------------------------------------------------------------------------------
 # bounded stand-ins
 # ---------------------------------------------------------------------------------------------
+# os.path predicates / string functions: modelled as effect-free with an arbitrary result; meeting one for the first time does not
+# make a refutation doubtful (an arbitrary answer of a pure predicate is exactly what the real function may give)
+PURE_STDLIB_CALLS = {f"<method {n} of function>" for n in ("basename", "dirname", "join", "splitext", "normpath", "isdir", "isfile", "exists", "islink", "lexists", "isabs")}
+
+
 def run_bounded(prop, tier, root, seed, jobs):
     try:
         from bounded.registry import BOUNDED
@@ -478,7 +483,7 @@ def main(argv=None):
             continue
         if key is not None and not rep.get("confirmed"):
             fn_name = results[key]["function"]
-            new_opaque = sorted(set(results[key].get("opaque_calls", [])) - set(base_opaque.get(fn_name, [])))
+            new_opaque = sorted(set(results[key].get("opaque_calls", [])) - set(base_opaque.get(fn_name, [])) - PURE_STDLIB_CALLS)
             if fn_name in base_opaque and new_opaque:
                 # the function now calls something the engine does not model and did not meet on the reference tree:
                 # the failed proof may be an artefact of that over-approximation -> undecided, not a violation
